@@ -755,3 +755,22 @@ def degenerate_branch_in_loop(case) -> bool:
                 if i in seen:
                     return True
     return False
+
+
+def call_on_cycle(case) -> bool:
+    """Known finding F-C02-11: a Call op that lies on a cycle through its fall-through edge (loop building turns the
+    way back into break_loop)."""
+    for r_i, r in enumerate(case["routines"]):
+        ops = r["ops"]
+        for i, op in enumerate(ops):
+            if op[0] == "Call" and i + 1 < len(ops):
+                seen, stack = set(), [i + 1]
+                while stack:
+                    k = stack.pop()
+                    if k in seen or k >= len(ops):
+                        continue
+                    seen.add(k)
+                    stack.extend(_succ(ops, r_i, k))
+                if i in seen:
+                    return True
+    return False
